@@ -80,9 +80,20 @@ def check_stable(ctx, data, label):
             except ValueError:
                 continue   # a value the parser accepted but cannot render (C04 allows ValueError)
             cls = classify_input(data)
+            if cls is None and re.search(rb'\r\r|\r(?!\n)', data):
+                # a bare CR inside a content line (not RFC 5545 text): CR directly before an escaped or raw
+                # line break is merged with it by the encoder's CRLF -> LF normalisation, one CR per round trip
+                cls = 'bare-cr-in-line'
             try:
                 c2 = icalendar.Component.from_ical(b1)
             except ValueError as e:
+                tb = e.__traceback__
+                while tb is not None:
+                    if tb.tb_frame.f_code.co_name == 'cache_timezone_component':
+                        # the first parse never validated this VTIMEZONE (it was closed by a different END
+                        # line, or its id was cached); the serialisation closes it with END:VTIMEZONE
+                        cls = 'vtimezone-validated-only-at-matching-end'
+                    tb = tb.tb_next
                 ctx.violation('reparse-rejected', {'data': data.decode('utf-8', 'replace')},
                               f'the serialisation of an accepted calendar is rejected: {e}', cls)
                 continue
